@@ -19,6 +19,8 @@ EXPLANATION = (
     "VerifySchnorr, and their wrappers) are validated by a dominating rejecting size test, come from a fixed-size producer, "
     "or have a fixed-size type. R15.8 `default: assert(0)` of opcode switches is unreachable (label agreement, shared with C17). "
     "R15.11 the session driver never asserts on session state (stack, saved P2SH stack, ...) - interactive commands can bring it into any shape. "
+    "R15.12 every function that reads secp256k1_context_verify and is reachable from a tool's main is reached only while an ECCVerifyHandle "
+    "is alive: a global object of that program holding one, or a holder function on every call path (call graph incl. constructors run by emplace_back / make_shared). "
     "R15.9 no iterator into the temporary exec script is stored in the session. Not decided: heap overflows through computed "
     "sizes, use-after-free in general, uninitialised reads other than R15.5, libsecp256k1/libreadline internals.")
 TRUSTED = ["clang 14 parser/Sema/CFG", "/verif extractor and engines", "libstdc++ / libsecp256k1 / libreadline as black boxes"]
